@@ -34,14 +34,15 @@ def main(tier):
     n_sets = 60 if thorough else 8
     stats = dict(fragment_sets=0, fragments_min=10 ** 9, fragments_max=0, lsh_runs=0, lsh_pairs=0, identical_pairs_checked=0,
                  rows_gt_hashes_runs=0, batch_runs=0, truncated_runs=0, model_lsh=0, model_batch=0, bandkey_fragments=0,
-                 exhaustive_pairs=0, cli_lsh_runs=0, big_sets=0)
+                 exhaustive_pairs=0, cli_lsh_runs=0, big_sets=0, ratio_sets=0, tiny_sets=0, prefilter_pairs_both_orders=0, prefilter_classes={},
+                 ratio_pairs_by_batch={}, model_prefilter_cells=0, lsh_fallback_runs=0, docstring_copies={})
     if not ck.go_ok:
         ck.finish()
     import time
     t0 = time.time()
 
-    def make_set(big):
-        texts, items = cc.gen_project(rng, n_bases=4 if big else rng.randint(2, 3), max_items=10 if big else rng.choice([4, 5, 6]))
+    def make_set(big, rng=rng):
+        texts, items = cc.gen_project(rng, n_bases=4 if big else rng.randint(2, 3), max_items=10 if big else rng.choice([4, 5, 6]), doc_p=0.4, docedit_p=0.6)
         cfg = dict(MinLines=3 if big else rng.choice([4, 5, 6]), MinNodes=4 if big else rng.choice([6, 8, 10]),
                    MaxEditDistance=rng.choice([0, 0, 50.0, 3.0]), ReduceBoilerplateSimilarity=rng.random() < 0.5, BoilerplateMultiplier=0.1,
                    SkipDocstrings=True, SimilarityThreshold=rng.choice([0, 0.65, 0.8]),
@@ -51,16 +52,74 @@ def main(tier):
                    LargeProjectSize=rng.choice([500, 10, 0]))
         files = sorted(texts.items())
         rng.shuffle(files)
-        return dict(texts=texts, files=files, cfg=cfg, lsh=[rand_lsh(rng) for _ in range(6 if thorough else 4)], big=big)
+        if big:
+            # members of the size-ratio family more than 50 positions apart: (2,5) Size 5/8 inside (1.5, 5/3), smaller first;
+            # (6,2) Size 9/5 inside (5/3, 2), larger first -- in different batches for every batch size the public entry point picks
+            fam = lambda ks: "\n".join(["import os", ""] + sum([cc.try_function("load%d" % k, k) + ["", ""] for k in ks], [])) + "\n"
+            files = [("ratio_front.py", fam([2, 6]))] + files + [("ratio_tail.py", fam([5, 2]))]
+            texts = dict(files)
+        return dict(texts=texts, files=files, cfg=cfg, lsh=[rand_lsh(rng) for _ in range(6 if thorough else 4)], big=big, kind="big" if big else "project",
+                    items=items)
+
+    def make_ratio_set(k):
+        """The size-ratio / line-ratio lattice (clonecommon.gen_ratio_project) under default-like thresholds."""
+        files, meta = cc.gen_ratio_project(xr, pads=(k % 2 == 0), fillers=k % 3, per_file=None if k else 1)
+        # 50 and 100 exceed the fragment count (one batch = the unbatched loop, exercised by the other sets)
+        batch_sizes = [1, 2, 3, 7]
+        cfg = dict(MinLines=xr.choice([3, 5]), MinNodes=xr.choice([4, 5]), MaxEditDistance=xr.choice([0, 0, 50.0]),
+                   ReduceBoilerplateSimilarity=xr.random() < 0.5, BoilerplateMultiplier=0.1, SkipDocstrings=True,
+                   SimilarityThreshold=xr.choice([0, 0.65]), Type1Threshold=xr.choice([0.98, 0.85]), Type2Threshold=0.75, Type3Threshold=0.7,
+                   Type4Threshold=xr.choice([0.65, 0.5]), MaxClonePairs=10000, BatchSizeThreshold=xr.choice([50, 3, 2]),
+                   BatchSizeLarge=xr.choice([100, 7, 0]), BatchSizeSmall=xr.choice([50, 2, 0]), LargeProjectSize=xr.choice([500, 10, 0]))
+        # hashes 100, threshold 0.8 / 0.1: float64(80)/float64(100) is the float64 0.8 itself (clonecommon.lsh_threshold_for_model)
+        fixed = [dict(bands=16, rows=2, hashes=100, threshold=0.8), dict(bands=50, rows=1, hashes=100, threshold=0.1)][k % 2]
+        return dict(texts=dict(files), files=files, cfg=cfg, lsh=[fixed] + [rand_lsh(xr) for _ in range(3 if thorough else 1)], big=False, kind="ratio", meta=meta,
+                    batch_sizes=batch_sizes)
+
+    def make_tiny_set(kind):
+        """one / none: 1 or 0 fragments -- DetectClonesWithLSH falls back to the standard path (clone_detector.go:655);
+        limit0: two identical fragments with MaxClonePairs = 0 (the batch loop's own default applies, the final limit keeps nothing);
+        micro: compound statements of 2-3 nodes, fewer labels than the k-gram width of the feature extractor (ast_features.go:150).
+        The straight-line function has 17 assignments (node-type bin '16+', ast_features.go:218)."""
+        cfg = dict(MinLines=3, MinNodes=9, MaxEditDistance=0, SkipDocstrings=True, SimilarityThreshold=0, Type1Threshold=0.85, Type2Threshold=0.75,
+                   Type3Threshold=0.7, Type4Threshold=0.65, MaxClonePairs=10000, BatchSizeThreshold=50, BatchSizeLarge=0, BatchSizeSmall=0, LargeProjectSize=0)
+        fn = "import os\n\n" + "\n".join(cc.straight_function("only", 17)) + "\n"
+        if kind == "one":
+            files = [("only.py", fn)]
+        elif kind == "none":
+            files = [("only.py", "import os\n\nvalue = 1\n")]
+        elif kind == "limit0":
+            files = [("only.py", fn), ("pkg/again.py", fn)]
+            cfg["MaxClonePairs"] = 0
+        else:
+            micro = "import os\n\nwhile os.flag:\n    pass\n\nif os.flag:\n    pass\n\nfor item in os.items:\n    pass\n"
+            files = [("m1.py", micro), ("m2.py", micro)]
+            cfg.update(MinLines=1, MinNodes=1)
+        return dict(texts=dict(files), files=files, cfg=cfg, lsh=[rand_lsh(xr) for _ in range(2)], big=False, kind="tiny", batch_sizes=[1, 2, 100])
 
     n_big = 8 if thorough else 1
     # big sets: 51..64 fragments so that the public entry point batches by itself (n > BatchSizeThreshold = 50)
     cands = [make_set(True) for _ in range(5 * n_big)]
-    probe = [cc.norm(x) for x in lib.driver([cc.driver_req(s["files"], s["cfg"], table="none") for s in cands], timeout=1800)]
+    xr0 = cc.side_rng(rng)
+    cands += [make_set(True, xr0) for _ in range(3 * n_big)]    # more candidates for the 51..70 window, from a side generator
+    # fragment counts: one request per file (extraction is per file; this keeps the probe's pair comparisons inside single files)
+    preqs = [(ci, cc.driver_req([f], s["cfg"], table="none")) for ci, s in enumerate(cands) for f in s["files"]]
+    pres = [cc.norm(x) for x in lib.driver([r for _, r in preqs], timeout=1800)]
+    probe = [dict(frags=[]) for _ in cands]
+    for (ci, _), r in zip(preqs, pres):
+        if "error" in r:
+            probe[ci]["error"] = r["error"]
+        else:
+            probe[ci]["frags"] += r["frags"]
     sized = sorted((((0 if 51 <= len(r.get("frags", [])) <= 70 else 1), abs(len(r.get("frags", [])) - 56), i) for i, r in enumerate(probe) if "error" not in r))
     sets = [cands[i] for _, _, i in sized[:n_big]]
     sets += [make_set(False) for _ in range(n_sets - n_big)]
-    reqs = [cc.driver_req(s["files"], s["cfg"], batch_sizes=[1, 7, 100] if s["big"] else BATCH_SIZES, lsh=s["lsh"][:2] if s["big"] else s["lsh"],
+    # additions draw from a side generator: the sets above stay what they were for a given VERIF_SEED
+    xr = cc.side_rng(rng)
+    n_ratio = 6 if thorough else 2
+    sets += [make_ratio_set(k) for k in range(n_ratio)]
+    sets += [make_tiny_set(k) for k in ("one", "none", "limit0", "micro")]
+    reqs = [cc.driver_req(s["files"], s["cfg"], batch_sizes=[1, 7, 100] if s["big"] else s.get("batch_sizes", BATCH_SIZES), lsh=s["lsh"][:2] if s["big"] else s["lsh"],
                           table="upper" if (s["big"] or i % 2) else "full") for i, s in enumerate(sets)]
     results = [cc.norm(x) for x in lib.driver(reqs, timeout=1800)]
     lib.log("driver %.1fs" % (time.time() - t0))
@@ -78,6 +137,9 @@ def main(tier):
         stats["fragments_min"] = min(stats["fragments_min"], n)
         stats["fragments_max"] = max(stats["fragments_max"], n)
         stats["big_sets"] += n > 50
+        stats["ratio_sets"] += s["kind"] == "ratio"
+        stats["tiny_sets"] += s["kind"] == "tiny"
+        stats["lsh_fallback_runs"] += len(res["lsh"]) if n <= 1 else 0
         stats["exhaustive_pairs"] += len(res["exh_raw"])
         cfg = s["cfg"]
         maxp = cfg["MaxClonePairs"]
@@ -86,6 +148,21 @@ def main(tier):
         truncated = len(exh) > maxp
         stats["truncated_runs"] += truncated
         replay = {"kind": "driver", "request": reqs[si]}
+
+        # ---------------- SkipDocstrings: a copy that differs in its docstring only is structurally identical (apted_tree.go isDocstring)
+        by_start = {(f["file"], f["start"]): i for i, f in enumerate(frags)}
+        bases = {it["base"]: it for it in s.get("items", []) if it["relation"] == "base"}
+        for it in s.get("items", []):
+            if it["relation"] not in ("docedit", "verbatim") or not it.get("doc"):
+                continue
+            a, b = by_start.get((bases[it["base"]]["path"], bases[it["base"]]["start"])), by_start.get((it["path"], it["start"]))
+            if a is None or b is None:
+                continue
+            stats["docstring_copies"][it["relation"]] = stats["docstring_copies"].get(it["relation"], 0) + 1
+            if cfg["SkipDocstrings"] and frags[a]["tree"] != frags[b]["tree"]:
+                ck.violation("with SkipDocstrings a copy that differs only in %s has a different tree: %s:%d vs %s:%d" % (
+                    "its docstring" if it["relation"] == "docedit" else "comments and blank lines", frags[a]["file"], frags[a]["start"], frags[b]["file"], frags[b]["start"]),
+                    dict(replay, frag_a=frags[a], frag_b=frags[b]))
 
         # ---------------- LSH: never invents, never loses identical fragments
         for lr in res["lsh"]:
@@ -96,7 +173,7 @@ def main(tier):
             stats["rows_gt_hashes_runs"] += rows_eff > hashes_eff
             got = pset(lr["pairs"], oriented=True)
             stats["lsh_pairs"] += len(got)
-            if n > 1:
+            if True:
                 inv = got - exh
                 if inv:
                     p = sorted(inv)[0]
@@ -156,6 +233,66 @@ def main(tier):
                     ck.violation("truncated batched detection (batch size %s, limit %d) does not keep the most similar pairs: kept %d, lowest kept %r, highest dropped %r"
                                  % (bs, maxp, len(got), kept[:1], dropped[-1:]), dict(replay, batch_size=bs))
 
+        # ---------------- LSH against BATCHED exhaustive detection (the exhaustive comparison of the public entry point for larger inputs)
+        if not truncated:
+            for lr in res["lsh"]:
+                lp, got = lr["params"], pset(lr["pairs"])
+                for bs, ps in list(res["batched"].items()) + [("public", res["detect"])]:
+                    extra = got - pset(ps)
+                    if extra:
+                        p = sorted(extra)[0]
+                        ck.violation("LSH (bands %d rows %d hashes %d threshold %r) reports a pair that batched exhaustive detection (batch size %s) does not report: "
+                                     "fragments %d,%d sim %r type %d" % (lp["bands"], lp["rows"], lp["hashes"], lp["threshold"], bs, p[0], p[1], p[2], p[4]),
+                                     dict(replay, lsh=lp, batch_size=bs, frag_a=frags[p[0]], frag_b=frags[p[1]]))
+                        break
+
+        # ---------------- pre-filters of shouldCompareFragments in both argument orders
+        # The exhaustive loop calls compareFragments(earlier, later); the batch loop with batch size 1 calls it as (later, earlier)
+        # for every pair.  For pairs that clear every other gate the reported pairs show what the filter answered in each order.
+        s["pre"] = {}
+        if not truncated and "1" in res["batched"] and reqs[si]["table"] != "none" and n > 1:
+            t4 = cfg["Type4Threshold"]
+            thr = cfg["SimilarityThreshold"] if cfg["SimilarityThreshold"] > 0 else t4
+            fwd_set = {(p["i"], p["j"]) for p in res["exh_raw"]}
+            bwd_set = {(p["i"], p["j"]) for p in res["batched"]["1"]}
+            asym = None
+            for c in res["table"]:
+                i, j = c["i"], c["j"]
+                if i >= j or cc.overlap(frags[i], frags[j]) or not c["gate"] or c["jac"] < 0.5 or c["sim"] < t4 or c["sim"] < thr:
+                    continue
+                if cfg["MaxEditDistance"] > 0 and c["dist"] > cfg["MaxEditDistance"]:
+                    continue
+                a, b = frags[i], frags[j]
+                sc, lc = cc.size_class(a["size"], b["size"]), cc.line_class(a["lines"], b["lines"])
+                fwd, bwd = (i, j) in fwd_set, (j, i) in bwd_set
+                spec = not (cc.size_prefilter_rejects(a["size"], b["size"]) or cc.line_prefilter_rejects(a["lines"], b["lines"]))
+                s["pre"][(i, j)] = (fwd, bwd, spec)
+                stats["prefilter_pairs_both_orders"] += 1
+                first = "smaller-first" if a["size"] < b["size"] else "larger-first" if a["size"] > b["size"] else "equal"
+                if sc not in ("le-1.5", "gt-2"):
+                    key = "size %s %s" % (sc, first)
+                    stats["prefilter_classes"][key] = stats["prefilter_classes"].get(key, 0) + 1
+                    for bs in BATCH_SIZES:
+                        if str(bs) in res["batched"] and bs > 1:
+                            k2 = "bs%d %s %s" % (bs, "same-batch" if i // bs == j // bs else "cross-batch", first)
+                            stats["ratio_pairs_by_batch"][k2] = stats["ratio_pairs_by_batch"].get(k2, 0) + 1
+                if lc != "lt-2":
+                    key = "lines %s %s" % (lc, "shorter-first" if a["lines"] < b["lines"] else "longer-first")
+                    stats["prefilter_classes"][key] = stats["prefilter_classes"].get(key, 0) + 1
+                if fwd != bwd and asym is None:
+                    asym = (i, j, fwd, bwd, sc, lc)
+            if asym:
+                i, j, fwd, bwd, sc, lc = asym
+                ck.violation("shouldCompareFragments answers differently for the two argument orders of one fragment pair, so the pair is reported or not "
+                             "depending on whether the two fragments share a batch: %s:%d-%d (Size %d, %d lines) and %s:%d-%d (Size %d, %d lines), similarity %r; "
+                             "compared as (earlier, later) by the exhaustive loop: %s; compared as (later, earlier) by the batch loop with batch size 1: %s "
+                             "[size ratio class %s, line ratio class %s]" % (
+                                 frags[i]["file"], frags[i]["start"], frags[i]["end"], frags[i]["size"], frags[i]["lines"],
+                                 frags[j]["file"], frags[j]["start"], frags[j]["end"], frags[j]["size"], frags[j]["lines"],
+                                 [c["sim"] for c in res["table"] if (c["i"], c["j"]) == (i, j)][0],
+                                 "reported" if fwd else "not reported", "reported" if bwd else "not reported", sc, lc),
+                             dict(replay, frag_a=frags[i], frag_b=frags[j], batch_size=1))
+
         # ---------------- model
         if n == 0:
             continue
@@ -174,8 +311,11 @@ def main(tier):
         body += "Definition tabs0 := Build_tables cells gates [].\n"
         body += "Eval vm_compute in (run_detect tabs0 c0 fs0).\n"
         evals.append(("detect", None))
-        if not truncated:
-            for bs in ([7] if n > 30 else BATCH_SIZES):
+        if s["pre"] and n <= 30:
+            body += "Eval vm_compute in (run_prefilter fs0).\nEval vm_compute in (run_prefilter_spec fs0).\n"
+            evals += [("prefilter", None), ("prefilter_spec", None)]
+        if not truncated or maxp <= 0:
+            for bs in ([7] if n > 30 else s.get("batch_sizes", BATCH_SIZES)):
                 body += "Eval vm_compute in (run_batched tabs0 c0 fs0 %s).\n" % cZ(bs)
                 evals.append(("batched", bs))
         vals = cc.Coder()
@@ -216,6 +356,30 @@ def main(tier):
                     if impl != mod:
                         ck.broken_ties.append("model band keys differ from computeBandKeys for %s: impl %s model %s" % (lr["params"], impl[0][:2], mod[0][:2] if mod else mod))
                     continue
+                if kind == "prefilter":
+                    # the model filter in both argument orders against what the implementation did in each order
+                    mp = {(e[0], e[1]): (e[2], e[3]) for e in v}
+                    stats["model_prefilter_cells"] += 2 * len(mp)
+                    bad = [(k, x) for k, x in mp.items() if x[0] != x[1]]
+                    if bad:
+                        ck.broken_ties.append("model should_compare is not symmetric on %s" % (bad[:2],))
+                    for (i, j), (fwd, bwd, spec) in s["pre"].items():
+                        if (i, j) in mp and mp[(i, j)] != (fwd, bwd):
+                            ck.broken_ties.append("model should_compare (a,b)/(b,a) = %s but shouldCompareFragments answered %s for fragments %d,%d "
+                                                  "(sizes %d/%d lines %d/%d)" % (mp[(i, j)], (fwd, bwd), i, j, res["frags"][i]["size"], res["frags"][j]["size"],
+                                                                                 res["frags"][i]["lines"], res["frags"][j]["lines"]))
+                            break
+                    continue
+                if kind == "prefilter_spec":
+                    fr = res["frags"]
+                    for e in v:
+                        i, j = e[0], e[1]
+                        py = not (cc.size_prefilter_rejects(fr[i]["size"], fr[j]["size"]) or cc.line_prefilter_rejects(fr[i]["lines"], fr[j]["lines"]))
+                        if py != e[2]:
+                            ck.broken_ties.append("harness reading of the pre-filters differs from Clone/PairsPre.v prefilter_spec on sizes %d/%d lines %d/%d"
+                                                  % (fr[i]["size"], fr[j]["size"], fr[i]["lines"], fr[j]["lines"]))
+                            break
+                    continue
                 m = {cc.upair(a, b, t) for a, b, t in cc.pairs_of_model(v)}
                 if kind == "detect":
                     impl = {cc.upair(p["i"], p["j"], p["type"]) for p in res["detect"]}
@@ -226,11 +390,24 @@ def main(tier):
                 else:
                     impl = {cc.upair(p["i"], p["j"], p["type"]) for p in res["lsh"][arg]["pairs"]}
                     stats["model_lsh"] += 1
-                if truncated:
+                if truncated and s["cfg"]["MaxClonePairs"] > 0:
                     continue   # the unstable sort decides; covered by the property-level checks above
                 if impl != m:
                     ck.broken_ties.append("model %s(%s) differs from the implementation: model-only %s impl-only %s (cfg %s)" % (
                         kind, arg if kind != "lsh" else res["lsh"][arg]["params"], sorted(m - impl)[:3], sorted(impl - m)[:3], s["cfg"]))
+
+    # ---------------- the lattice must have been reached (otherwise the run decides nothing about the pre-filters' argument order)
+    if not any(s.get("res") is None for s in sets):
+        need = ["size %s %s" % (c, o) for c in ("in-(1.5,5/3)", "in-(5/3,2)") for o in ("smaller-first", "larger-first")]
+        missing = [k for k in need if not stats["prefilter_classes"].get(k)]
+        missing += [c for c in ("size edge-5/3", "size edge-2") if not any(k.startswith(c) for k in stats["prefilter_classes"])]
+        missing += ["lines %s %s" % (c, o) for c in ("edge-2", "edge-2+1") for o in ("shorter-first", "longer-first") if not stats["prefilter_classes"].get("lines %s %s" % (c, o))]
+        missing += ["bs%d cross-batch %s" % (bs, o) for bs in (2, 3, 7) for o in ("smaller-first", "larger-first")
+                    if not stats["ratio_pairs_by_batch"].get("bs%d cross-batch %s" % (bs, o))]
+        if not any(k.endswith(o) and "same-batch" in k for k in stats["ratio_pairs_by_batch"] for o in ("smaller-first", "larger-first")):
+            missing.append("a same-batch pair with a Size ratio in (1.5, 2)")
+        if missing:
+            ck.broken_ties.append("generator: the size/line ratio lattice of the pre-filters was not reached: %s" % missing)
 
     # ---------------- command line: [clones] lsh_enabled = true / false on the same project
     base = lib.fresh_dir("c09")
@@ -280,7 +457,10 @@ def main(tier):
     ck.cov.update({
         "evaluations": stats["lsh_runs"] + stats["batch_runs"] + 2 * stats["cli_lsh_runs"],
         "distinct_nontrivial": stats["identical_pairs_checked"] + stats["exhaustive_pairs"],
-        "rule": "generated fragment sets (identical groups, renamed and edited near-duplicates, unrelated fragments; %d..%d fragments) x "
+        "rule": "generated fragment sets (identical groups, renamed and edited near-duplicates, unrelated fragments, docstring-only copies; %d..%d fragments; "
+                "plus the size-ratio family: try/except/finally functions with identical handlers, Size ratios exactly 1.5, inside (1.5, 5/3), exactly 5/3, inside (5/3, 2), "
+                "exactly 2 at similarity 0.75..0.9, smaller-first and larger-first, same batch and different batches for batch sizes 2, 3, 7 and more than 50 positions apart "
+                "in the big set; a line-count lattice 2x-1 / 2x / 2x+1 in both orders; sets of 0, 1 and 2 fragments, MaxClonePairs 0, 2-3 node fragments) x "
                 "LSH grid (bands, rows incl. rows > hashes and non-positive defaults, hash counts, thresholds incl. out of [0,1]) x batch sizes %s + "
                 "the public entry point with varied batch thresholds x pair limits (incl. truncating ones); CLI with lsh_enabled true/false; "
                 "distinct = exhaustive pairs compared" % (stats["fragments_min"], stats["fragments_max"], BATCH_SIZES),
@@ -295,6 +475,10 @@ def main(tier):
         "math/rand-derived hash functions of MinHasher are abstract (signatures are taken from the implementation); FNV-64a band hashing is "
         "modelled and compared with computeBandKeys on every fragment",
         "Go map iteration order in FindCandidates only permutes the candidate list: modelled as the set of index pairs sharing a band key",
+        "EstimateJaccardSimilarity's float64 quotient matches/n against the float64 LSH threshold: the model gets the exact bound m0/n with m0 the least "
+        "match count whose float64 quotient reaches the threshold (clonecommon.lsh_threshold_for_model; computed with Python float64 arithmetic)",
+        "shouldCompareFragments' argument order: the exhaustive loop shows the answer for (earlier, later), the batch loop with batch size 1 for (later, earlier); "
+        "both are compared with Clone/PairsPre.v run_prefilter (model filter in both orders) on every pair that clears the other gates",
         "hand-written model Clone/Pairs.v of clone_detector.go / lsh_index.go / minhash.go",
     ]
     ck.finish(assumptions=["'batched = unbatched' and 'identical pairs kept' are stated and checked without truncation by MaxClonePairs; "
